@@ -220,7 +220,7 @@ if the gap fits into the segment, `$` after the statement is exactly that. -/
 theorem C10_align (cfg : Cfg) (s : St) (n : Int) (hn : 0 < n) (hn2 : n < 65536) (hw : epc s + n - 1 < 2147483648) :
     let len := (decode cfg s (.align n none)).codeLen
     n ∣ epc s + len ∧ 0 ≤ len ∧ len < n ∧
-    (s.actPC ≠ structSeg → (chkPC s (wrap64 (epc s + len - 1)) = true ∨ len = 0) →
+    (s.actPC ≠ structSeg → ((chkPC s (epc s) = true ∧ chkPC s (wrap64 (epc s + len - 1)) = true) ∨ len = 0) →
       epc (step cfg s ⟨none, .align n none⟩).1 = epc s + len ∧ (step cfg s ⟨none, .align n none⟩).2.errs = []) := by
   obtain ⟨l1, l2, l3, l4, _⟩ := codeALIGN_len cfg s n hn hn2 hw
   obtain ⟨b0, b1, b2, _⟩ := alignUp_spec (epc s) n (epc_nonneg s) hn
@@ -285,7 +285,7 @@ theorem C10_struct_end (cfg : Cfg) (s : St) (f : Frame) (hst : s.structs = [f]) 
     r.2.defs = [(⟨f.path, none⟩, max f.totLen (s.pcs structSeg))] ∧ r.2.errs = [] ∧ r.2.crash = false ∧
     r.1.actPC = s.structSaveSeg ∧ r.1.structs = [] ∧
     r.1.pcs s.structSaveSeg = wrap64 (s.pcs s.structSaveSeg) ∧ r.2.ev = .jump (wrap64 (s.pcs s.structSaveSeg)) := by
-  have hti : toI32 (s.pcs structSeg) = s.pcs structSeg := toI32_small (by omega) (by omega)
+  have hti : toI64 (s.pcs structSeg) = s.pcs structSeg := toI64_small (by omega) (by omega)
   have hb : (bump f (s.pcs structSeg)).totLen = max f.totLen (s.pcs structSeg) := by
     unfold bump; rw [hti]
     by_cases hc : f.totLen < s.pcs structSeg
@@ -476,19 +476,18 @@ theorem C10_finding_org_under_phase :
     ((run { orgLoad := true } (init 0) witnessOrg).2.all (fun o => o.errs.isEmpty)) = true := by
   refine ⟨by decide, by decide, by decide⟩
 
-/-- **Known finding `struct-length-wraps-at-2^31`** (the point the side condition `lbOut … < 2^31` of `Pre` excludes): the
-structure `N1 struct / N2: ds 40000000h / N3: ds 40000000h / N4: ds 1 / endstruct` is accepted by the spec machine with
-`N1_LEN = 2147483649`; the model of `BumpStructLength(…, (LongInt) ProgCounter())` drops the final length as negative and
-defines `N1_LEN = 1073741824` (the offset of `N3`), like the real assembler; the field `N1_N4 = 2147483648` is right. -/
+/-- **Repaired finding `struct-length-wraps-at-2^31`** (repair cd7d018; the side condition `lbOut … < 2^31` of `Pre` stays
+as a hypothesis of the refinement proof): the structure `N1 struct / N2: ds 40000000h / N3: ds 40000000h / N4: ds 1 / endstruct`
+is accepted by the spec machine with `N1_LEN = 2147483649`, and the model of `BumpStructLength(…, (LargeInt) ProgCounter())` now
+defines the same length (with `TotLen : LongInt` it dropped the final length as negative and kept 1073741824, the offset of `N3`). -/
 def witnessBig : List Stmt :=
   [⟨none, .struct (some 1) false⟩, ⟨some 2, .res 1073741824⟩, ⟨some 3, .res 1073741824⟩, ⟨some 4, .res 1⟩, ⟨none, .endstruct⟩]
 
-theorem C10_finding_struct_length_wraps :
+theorem C10_struct_length_beyond_2_31 :
     ((AddrSpec.run AddrSpec.manualSegs (AddrSpec.init AddrSpec.manualSegs 0) witnessBig).map (fun r => r.2.drop 3)) =
       some [[(⟨[1], some 4⟩, 2147483648)], [(⟨[1], none⟩, 2147483649)]] ∧
     ((run {} (init 0) witnessBig).2.drop 3).map (fun o => (o.defs, o.errs)) =
-      [([(⟨[1], some 4⟩, 2147483648)], []), ([(⟨[1], none⟩, 1073741824)], [])] ∧
-    runPreB {} AddrSpec.manualSegs (AddrSpec.init AddrSpec.manualSegs 0) witnessBig = false := by
-  refine ⟨by decide, by decide, by decide⟩
+      [([(⟨[1], some 4⟩, 2147483648)], []), ([(⟨[1], none⟩, 2147483649)], [])] := by
+  refine ⟨by decide, by decide⟩
 
 end AslModel.C10
